@@ -134,7 +134,7 @@ theorem inflate_ok (get : Bytes → Except Err Bytes) (h : Bytes) (cs : List Byt
       | some c => simp only [hp, Except.ok.injEq] at hi; subst hi; exact Or.inr ⟨der, rfl, hp⟩
 
 /-- the generic step: a failing or undecodable lookup result for the embedded hash makes `fixLogLeaf` fail -/
-theorem fault_is_error (get : Bytes → Except Err Bytes) (extra : Bytes) (h : Bytes) (hne : h.length ≠ 0)
+theorem fixLogLeaf_error_of_bad_lookup (get : Bytes → Except Err Bytes) (extra : Bytes) (h : Bytes) (hne : h.length ≠ 0)
     (hlay : (∃ pre, decPCEH extra = some (pre, h)) ∨ (decPCEH extra = none ∧ decCCH extra = some h))
     (hbad : (∃ e, get h = .error e) ∨ (∃ der, get h = .ok der ∧ parseDerChain der = none)) :
     ∃ e, fixLogLeaf get extra = .error e := by
@@ -270,38 +270,16 @@ theorem verified_sound (H : Bytes → Bytes) (s : State) (f : Faults) (h v : Byt
     · simp only [hw, Bool.false_eq_true, if_false, Except.ok.injEq] at hv
       subst hv; simpa using hw
 
-/- FULL (the property: "a storage or cache failure, an unknown hash or a corrupted stored chain produces an error
-   response, never altered, truncated or empty chain data"). FALSE on the tree as found: `getByHash` never compares
-   SHA-256(bytes) with the hash it looked up, so a row that is the well-formed DER of another chain / of no chain is served
-   with status 200 (finding, known_findings.d/C14.json, fixes/C14-2.diff; the harness generates such rows). With the fix
-   `Gen.getByHashVerifiesHash` regenerates to `true` and the following compiles verbatim (checked against the patched
-   scratch tree); until then the proved form is `fault_is_error_partial`, which carries the flag as a conjunct.
-
-     theorem hash_check_present : Gen.getByHashVerifiesHash = true := rfl
-
-     theorem fault_is_error (H : Bytes → Bytes) (s : State) (f : Faults) (extra : Bytes) (h : Bytes) (hne : h.length ≠ 0)
-         (hlay : (∃ pre, decPCEH extra = some (pre, h)) ∨ (decPCEH extra = none ∧ decCCH extra = some h))
-         (hbad : (∃ e, getByHashRaw s f h = .error e) ∨
-                 (∃ der, getByHashRaw s f h = .ok der ∧ (H der ≠ h ∨ parseDerChain der = none))) :
-         ∃ e, fixLogLeaf (getByHash Gen.getByHashVerifiesHash H s f) extra = .error e := by
-       apply fault_is_error_partial H s f extra h hne hlay
-       rcases hbad with he | ⟨der, hg, hh | hp⟩
-       · exact Or.inl he
-       · exact Or.inr ⟨der, hg, Or.inr ⟨hash_check_present, hh⟩⟩
-       · exact Or.inr ⟨der, hg, Or.inl hp⟩
--/
-
-/-- **fault_is_error_partial.** If the extra data is one of the two hash layouts with a non-empty hash and the lookup
-fails (storage or cache error, unknown hash), or returns bytes that do not decode as a chain, or — where the code
-has the content-address check (regenerated flag) — returns bytes that do not hash to the key, the reader gets an
-error. Never unfolds the flag: holds on both trees. -/
-theorem fault_is_error_partial (H : Bytes → Bytes) (s : State) (f : Faults) (extra : Bytes) (h : Bytes) (hne : h.length ≠ 0)
+/-- the flag-generic form (never unfolds the regenerated flag, so it also holds for a tree without the check, where
+its last disjunct is empty): lookup error, undecodable bytes, or — where the code has the content-address check —
+bytes that do not hash to the key ⇒ error. -/
+theorem fault_is_error_of_flag (H : Bytes → Bytes) (s : State) (f : Faults) (extra : Bytes) (h : Bytes) (hne : h.length ≠ 0)
     (hlay : (∃ pre, decPCEH extra = some (pre, h)) ∨ (decPCEH extra = none ∧ decCCH extra = some h))
     (hbad : (∃ e, getByHashRaw s f h = .error e) ∨
             (∃ der, getByHashRaw s f h = .ok der ∧
               (parseDerChain der = none ∨ (Gen.getByHashVerifiesHash = true ∧ H der ≠ h)))) :
     ∃ e, fixLogLeaf (getByHash Gen.getByHashVerifiesHash H s f) extra = .error e := by
-  apply fault_is_error (getByHash Gen.getByHashVerifiesHash H s f) extra h hne hlay
+  apply fixLogLeaf_error_of_bad_lookup (getByHash Gen.getByHashVerifiesHash H s f) extra h hne hlay
   unfold getByHash
   rcases hbad with ⟨e, he⟩ | ⟨der, hg, hp | ⟨hflag, hh⟩⟩
   · exact Or.inl ⟨e, by rw [he]; rfl⟩
@@ -314,15 +292,39 @@ theorem fault_is_error_partial (H : Bytes → Bytes) (s : State) (f : Faults) (e
     have : (H der != h) = true := by simpa using hh
     simp [verified, hflag, this]
 
-/-- … and, where the check is present, *never altered data*: a successful answer for a hash layout is the exact
+/-- **hash_check_present** (regenerated from services.go on every run): `getByHash` compares SHA-256 of what the cache
+or the storage returned with the hash it looked up, before returning or caching it
+(`fix: ctfe: issuance chains read back from cache/storage were not checked against their hash`, dc18da9). On a tree
+without the check this is `false`, this theorem and the two below stop compiling, and the harness shows the served
+wrong rows. -/
+theorem hash_check_present : Gen.getByHashVerifiesHash = true := rfl
+
+/-- **fault_is_error** (the property: "a storage or cache failure, an unknown hash or a corrupted stored chain produces an
+error response, never altered, truncated or empty chain data"). If the extra data is one of the two hash layouts with a
+non-empty hash and the lookup fails (storage or cache error, unknown hash) or hands back bytes that are not the chain
+stored under that hash — they do not hash to it, or do not decode as a chain — the reader gets an error. `H` is the
+hash function (SHA-256 in the code); rows that are the well-formed DER of another chain, of no chain, of a permuted or
+shortened chain are all covered by `H der ≠ h`. -/
+theorem fault_is_error (H : Bytes → Bytes) (s : State) (f : Faults) (extra : Bytes) (h : Bytes) (hne : h.length ≠ 0)
+    (hlay : (∃ pre, decPCEH extra = some (pre, h)) ∨ (decPCEH extra = none ∧ decCCH extra = some h))
+    (hbad : (∃ e, getByHashRaw s f h = .error e) ∨
+            (∃ der, getByHashRaw s f h = .ok der ∧ (H der ≠ h ∨ parseDerChain der = none))) :
+    ∃ e, fixLogLeaf (getByHash Gen.getByHashVerifiesHash H s f) extra = .error e := by
+  apply fault_is_error_of_flag H s f extra h hne hlay
+  rcases hbad with he | ⟨der, hg, hh | hp⟩
+  · exact Or.inl he
+  · exact Or.inr ⟨der, hg, Or.inr ⟨hash_check_present, hh⟩⟩
+  · exact Or.inr ⟨der, hg, Or.inl hp⟩
+
+/-- … and *never altered data*: a successful answer for a hash layout is the exact
 encoding of a chain whose DER form hashes to the embedded hash. -/
-theorem served_chain_hashes_to_key_partial (hflag : Gen.getByHashVerifiesHash = true)
+theorem served_chain_hashes_to_key
     (H : Bytes → Bytes) (s : State) (f : Faults) (h : Bytes) (cs : List Bytes) (hne : h.length ≠ 0)
     (hi : inflate (getByHash Gen.getByHashVerifiesHash H s f) h = .ok cs) :
     ∃ der, H der = h ∧ parseDerChain der = some cs := by
   rcases inflate_ok _ h cs hi with ⟨h0, _⟩ | ⟨der, hg, hp⟩
   · exact absurd h0 hne
-  · rw [hflag] at hg
+  · rw [hash_check_present] at hg
     exact ⟨der, verified_sound H s f h der hg, hp⟩
 
 /-- Without the check the answer depends on cache state once a row is damaged: same store, same request, cached good
@@ -384,12 +386,15 @@ theorem fix_ok_cases (get : Bytes → Except Err Bytes) (extra x : Bytes) (h : f
           exact Or.inl ⟨h.symm, rfl, rfl, Or.inr (by simp)⟩
         | none => simp [h2] at h
 
-/-! ## the two modes refuse the same submissions — one direction only -/
+/-! ## the two modes accept the same submissions -/
 
-/-- what the in-backend mode accepts, the external-storage mode accepts too (for a hash the layouts can carry) -/
-theorem direct_accepts_implies_indirect_partial (H : Bytes → Bytes) (isPrecert : Bool) (cert : Bytes) (chain : List Bytes) (dx : Bytes)
+/-- what the in-backend mode accepts, the external-storage mode accepts too (for a hash the layouts can carry) — with or
+without the encoding check -/
+theorem direct_accepts_implies_indirect (check : Bool) (H : Bytes → Bytes) (isPrecert : Bool) (cert : Bytes) (chain : List Bytes) (dx : Bytes)
     (hH : (H (derChain chain)).length ≤ 256)
-    (hd : buildDirect isPrecert cert chain = some dx) : (buildIndirect H isPrecert cert chain).isSome = true := by
+    (hd : buildDirect isPrecert cert chain = some dx) : (buildIndirectC check H isPrecert cert chain).isSome = true := by
+  unfold buildIndirectC
+  simp only [hd, Option.isNone_some, Bool.and_false, Bool.false_eq_true, if_false]
   unfold buildIndirect
   have hh : ∀ b : Nat × Nat, b = (0, 256) → (encVec b (H (derChain chain))).isSome = true := by
     intro b hb; subst hb; unfold encVec; simp [hH]
@@ -407,19 +412,40 @@ theorem direct_accepts_implies_indirect_partial (H : Bytes → Bytes) (isPrecert
     | none => simp [hb] at this
     | some b => rfl
 
-/- FULL: `(buildIndirect H p cert chain).isSome ↔ (buildDirect p cert chain).isSome` — "the same submissions are
-   accepted". The direction ← is the theorem above; → is FALSE: the external-storage mode only DER-encodes the chain at
-   submission, so it accepts a chain whose TLS form the in-backend mode refuses (an empty certificate; a chain body
-   above 2^24−1 bytes). Such an entry is sequenced and every later read of its index (and of every range containing
-   it) is a 500. Not a violation of the letter of the property (the in-backend mode serves nothing for that submission
-   to compare with); recorded as an observation in notes/C14.md, counted by the harness (`synth-refused-one-sided`). -/
-example : (buildIndirect exH false exCert [[]]).isSome = true ∧ buildDirect false exCert [[]] = none := by decide
+/-- **same_submissions_accepted_partial.** Where the external-storage `BuildLogLeaf` has the encoding check (regenerated
+flag, as a hypothesis: it is `false` on the tree as found), the two modes accept exactly the same submissions. -/
+theorem same_submissions_accepted_partial (hflag : Gen.indirectBuildChecksEncoding = true)
+    (H : Bytes → Bytes) (isPrecert : Bool) (cert : Bytes) (chain : List Bytes)
+    (hH : (H (derChain chain)).length ≤ 256) :
+    (buildIndirectC Gen.indirectBuildChecksEncoding H isPrecert cert chain).isSome = true ↔ (buildDirect isPrecert cert chain).isSome = true := by
+  constructor
+  · intro h
+    rw [hflag] at h
+    unfold buildIndirectC at h
+    cases hd : buildDirect isPrecert cert chain with
+    | some dx => rfl
+    | none => simp [hd] at h
+  · intro h
+    cases hd : buildDirect isPrecert cert chain with
+    | none => simp [hd] at h
+    | some dx => exact direct_accepts_implies_indirect _ H isPrecert cert chain dx hH hd
+
+/- FULL ("for the same submission"): `same_submissions_accepted_partial` without `hflag`, i.e. with
+     theorem encoding_check_present : Gen.indirectBuildChecksEncoding = true := rfl
+   FALSE on the tree as found: the external-storage mode only DER-encodes the chain at submission, so it accepts a chain
+   whose `certificate_chain` body is above 2^24−1 bytes (or contains a certificate the TLS form cannot carry); the
+   in-backend mode refuses that submission (500). The entry is sequenced, can never be served, and every get-entries
+   range containing it fails — a poisoned range. Finding, known_findings.d/C14.json, fixes/C14-3.diff; reproduced end to
+   end by `TestVerifC14Oversized` (two 8.4 MB intermediates through the real add-chain). With the fix the flag
+   regenerates to `true`, `encoding_check_present` compiles and `hflag` can be dropped (checked on the patched scratch tree). -/
+example : (buildIndirectC false exH false exCert [[]]).isSome = true ∧ buildDirect false exCert [[]] = none ∧
+    buildIndirectC true exH false exCert [[]] = none := by decide
 
 /-! ## a failure to restore the chain is a server error at both readers -/
 
 /-- regenerated from handlers.go: `rpcGetLeavesByRange` visits every leaf of the reply, answers a `FixLogLeaf` failure on
 any of them with this status and returns the reply whole otherwise (the unit fails to extract for any other shape —
-seeded change C14-3); `rpcGetEntryAndProof` likewise. Together with `range_all_or_error` / `fault_is_error_partial`. -/
+seeded change C14-3); `rpcGetEntryAndProof` likewise. Together with `range_all_or_error` / `fault_is_error`. -/
 theorem fix_error_is_server_error : 500 ≤ Gen.rangeFixErrorStatus ∧ 500 ≤ Gen.entryFixErrorStatus := by decide
 
 /-! ## ranges: all or nothing -/
